@@ -17,18 +17,18 @@ import (
 
 type MuxT struct {
 	Devs []*dev.Dev
-	idle *dev.Dev // serves reads outside a simulation / from goroutines that are not tasks
+	Idle *dev.Safe // serves reads outside a simulation / from goroutines that are not tasks (helper goroutines of the library)
 }
 
 func (m *MuxT) Read(p []byte) (int, error) {
 	if m.Devs == nil || !zzsimrt.IsTask() {
-		return m.idle.Read(p)
+		return m.Idle.Read(p)
 	}
 	return m.Devs[zzsimrt.Cur()].Read(p)
 }
 
 var Orig io.Reader
-var Mux = &MuxT{idle: dev.New(nil)}
+var Mux = &MuxT{Idle: dev.NewSafe()}
 
 func init() {
 	Orig = rand.Reader
